@@ -25,8 +25,11 @@ def tlc_run(spec: str, cfg: str, dump: bool = False, workers: int = 4, timeout: 
         if dump:
             cmd += ["-dump", "dot,actionlabels", dot_path]
         cmd.append(spec)
-        r = subprocess.run(cmd, cwd=TLA_DIR, capture_output=True, text=True, timeout=timeout)
-        out = r.stdout + r.stderr
+        jtmp = os.path.join(tmp, "jtmp")
+        os.makedirs(jtmp, exist_ok=True)
+        env = dict(os.environ, JAVA_TOOL_OPTIONS=(os.environ.get("JAVA_TOOL_OPTIONS", "") + f" -Djava.io.tmpdir={jtmp}").strip())
+        r = subprocess.run(cmd, cwd=TLA_DIR, capture_output=True, text=True, timeout=timeout, env=env)
+        out = r.stdout + "\n".join(l for l in r.stderr.splitlines() if "JAVA_TOOL_OPTIONS" not in l)
         m = re.search(r"(\d+) states generated, (\d+) distinct states found", out)
         dm = re.search(r"depth of the complete state graph search is (\d+)", out)
         res = {
